@@ -287,10 +287,8 @@ def gen_wire(rng):
                 cur[j] = rng.choice([2 ** 32 - 1, 2 ** 32, 2 ** 33 + 7])      # beyond what RADIUS can carry
     for ch in shape:
         if ch == "S":
-            if rng.random() < 0.85:
-                recs.append("S,0,0,0,0")
-            else:
-                recs.append("S,%d,%d,%d,%d" % tuple(cur))
+            # the only caller of StartAccounting passes zero counters: a Start carries no usage
+            recs.append("S,0,0,0,0")
         elif ch == "I":
             for _ in range(rng.choice([1, 2, 3, 5])):
                 grow()
@@ -576,9 +574,9 @@ def gen_cases(rng, tier, budget):
     g = 2 ** 32
     cases += ["W S,0,0,0,0 I,3000000000,4000000000,3000000,4000000 I,%d,%d,4295967,8589939 E,%d,%d,4296967,8589943" % (
                   g + 1000000, 2 * g + 5000, g + 2000000, 2 * g + 9000),
-              "W S,0,0,0,0 E,%d,%d,1,1" % (g, g), "W S,%d,%d,5,5 I,%d,%d,6,6 E,%d,%d,7,7" % (g, 2 ** 40, g + 1, 2 ** 40, 2 ** 33, 2 ** 40 + g),
+              "W S,0,0,0,0 E,%d,%d,1,1" % (g, g), "W S,0,0,0,0 I,%d,%d,6,6 E,%d,%d,7,7" % (g + 1, 2 ** 40, 2 ** 33, 2 ** 40 + g),
               "W I,%d,0,0,0 E,%d,0,0,0" % (g - 1, g)]
-    for st in "SIE":
+    for st in "IE":
         for e in WIRE_EDGES:
             cases.append("W %s,%d,%d,%d,%d" % (st, e, (e * 3) % 2 ** 64, e % 2 ** 32, 7))
     for i in range(250 if tier == "quick" else 5000):
